@@ -176,8 +176,13 @@ def main():
                       ('difference', lambda x, y: x - y)]
             if a['kind'] in ('Set', 'TreeSet'):
                 forms.append(('xor', lambda x, y: x ^ y))
+        if a['kind'] == 'list' and b['kind'] in ('Set', 'TreeSet'):
+            # reflected operators: a plain iterable on the left of | & - ^ (rejected with TypeError, or the right answer)
+            forms += [('ror', lambda x, y: x | y), ('rand', lambda x, y: x & y), ('rsub', lambda x, y: x - y), ('rxor', lambda x, y: x ^ y)]
         for name, f in forms:
             ao, bo = make(a, n_), make(b, n_ + 1)
+            if name in ('ror', 'rand', 'rsub', 'rxor') and type(ao).__name__ == 'dict_keys':
+                continue        # (a dict view has set operators of its own)
             try:
                 counts['calls'] += 1
                 got = render(f(ao, bo), ao, bo, name)
